@@ -139,7 +139,7 @@ pub fn run(cfg: &Cfg, rep: &mut Report) {
     rep.assumptions.push("expected grouping comes from the loader automaton written from SPIR-V 1.6 §2.4 (harness/src/spec.rs, model.rs); excluded as the property states: OpLine/OpNoLine inside a function outside a block, more than one OpMemoryModel".into());
     let d = db();
     let n_ops = d.insts.len() as u64;
-    let n = cfg.n(n_ops * 20, n_ops * 250);
+    let n = cfg.n(n_ops * 20, n_ops * 6000);
     run_stage(cfg, rep, "modules", n, |idx, rng, r| {
         let must = (idx % n_ops) as usize;
         let layout = idx % 3 != 2;
